@@ -563,6 +563,24 @@ def gen_inbound(tier, rng):
             for k in range(3):
                 ops += [in_op(0, "c1", 32), in_op(0, "c3", 32), getp(1), in_op(1, "c1", 32) if kinds.endswith("rtp.nt") else getp(1), P(0), P(1), "s"]
             yield Case("c15.rgroup %d %s %s" % (cap, kinds, ",".join(ops)), cls="inbound-rgroup")
+    # ---- rtmp / http-flv subscribers of a real Group (Tick -> disposeInactiveSessions) that send while stalled
+    M = lambda k: "p9:%d:%s" % (k * 40, tok(b"\x27\x01\0\0\0" + bytes([k] * 9)))
+    for subs in ("r", "rr", "fwr", "rf"):
+        ri = subs.index("r")
+        ops = [M(0), M(1), M(2), M(3), M(4), M(5), "s"]
+        for k in range(3):
+            ops += [in_op(ri, "a"), M(6 + k), in_op(ri, "a"), "s"]
+        yield Case("c15.group 3 %s %s" % (subs, ",".join(ops)), cls="inbound-group")
+        ops = [M(0), "s", in_op(ri, "k5"), in_op(ri, "a"), "s", in_op(ri, "k6"), M(1), "s", in_op(ri, "k7"), "s"]
+        yield Case("c15.group 3 %s %s" % (subs, ",".join(ops)), cls="inbound-group")
+        ops = []
+        for k in range(6):
+            ops += [M(k), "r0.9"] + ([in_op(0, "a"), in_op(0, "k%d" % k), "r0.9"] if subs[0] == "r" else [])
+            if k % 2 == 1:
+                ops.append("s")
+        yield Case("c15.group 3 %s %s healthy0" % (subs, ",".join(ops)), cls="inbound-group")
+    for subs in ("f", "w", "fw"):
+        yield Case("c15.group 3 %s %s" % (subs, ",".join([M(0), M(1), "s", in_op(0, "b6"), M(2), "s", M(3), "s"])), cls="inbound-group")
     # ---- random schedules with inbound traffic
     for _ in range(300 if not thorough else 3000):
         fam = rng.choice(FAMILIES)
@@ -1025,8 +1043,8 @@ def oracle_run(f, cons):
         if stalled[i] and PLAIN[kind] != "rtp" and x["state"] != "c":
             return (False, "consumer %d completed no write between two sweeps and is still connected" % i)
         if not len(offered) - nreply <= x["att"] <= len(offered):
-            return (False, "consumer %d (%s): %d connection write calls for %d units handed to the connection (a rejected write must be "
-                           "dropped at once, not retried: the publisher holds the group lock)" % (i, kind, x["att"], len(offered)))
+            return (False, "consumer %d (%s): %d connection write calls for %d units handed to the connection (one connection write per unit: a rejected "
+                           "write is dropped at once, not retried, and a unit is not split over several writes)" % (i, kind, x["att"], len(offered)))
         if PLAIN[kind] != "rtp" and any(o[0] == "i" and parse_in(o)[0] == i and parse_in(o)[1][0] == "b" for o in ops) and x["state"] != "c":
             pass    # an http subscription that received bytes: lal ends it; the property does not ask for that
         if PLAIN[kind] == "rtp":
@@ -1166,15 +1184,22 @@ def oracle_group(f, cons):
                 return (False, "consumer %d (%s): %s" % (i, kind, why))
             complete = b"H" + (FLV_HEADER + b"".join(tags) if ch == "f" else ref_ws_frame(FLV_HEADER) + b"".join(ref_ws_frame(t) for t in tags))
         else:
-            units = [ref_rtmp_chunks({8: 6, 9: 7, 18: 5}[m[0]], m[0], m[1], 1, m[2], 4096) for m in msgs]
+            units = []
+            for o in ops:
+                if o[0] == "p":
+                    t, ts, pl = o[1:].split(":")
+                    units.append(ref_rtmp_chunks({8: 6, 9: 7, 18: 5}[num(t)], num(t), num(ts), 1, tok_bytes(pl), 4096))
+                elif o[0] == "i" and parse_in(o)[0] == i and parse_in(o)[1][0] == "k":
+                    units.append(ref_rtmp_pong(num(parse_in(o)[1][1:])))
             why = check_consumer("rtmp", x, units, 4096)
             if why:
                 return (False, "consumer %d (rtmp): %s" % (i, why))
             complete = b"".join(units)
         if stalled[i] and x["state"] != "c":
             return (False, "consumer %d completed no write between two sweeps and is still connected" % i)
-        if x["att"] != len(msgs) + (2 if ch in "fw" else 0):
-            return (False, "consumer %d: %d connection write calls for %d messages%s (a rejected write must be dropped at once, not retried)"
+        nreply = sum(1 for o in ops if ch == "r" and o[0] == "i" and parse_in(o)[0] == i and parse_in(o)[1][0] == "k")
+        if not 0 <= x["att"] - (len(msgs) + (2 if ch in "fw" else 0)) <= nreply:
+            return (False, "consumer %d: %d connection write calls for %d messages%s (one connection write per unit: a rejected write is dropped at once, not retried)"
                            % (i, x["att"], len(msgs), " + response header + FLV header" if ch in "fw" else ""))
         if tag == "healthy0" and i == 0:
             if x["state"] != "o" or x["wire"] != complete:
